@@ -424,6 +424,8 @@ def as_bool(sv):
         if sv.keys is not None:
             return z3.Length(sv.keys) > 0
         raise Unsupported('truthiness of an unordered dict')
+    if isinstance(sv, SFunc) and sv.kind == 'rematch':
+        return sv.matched        # a match object is truthy, None (no match) is not
     if isinstance(sv, (SObj, SModel, SFunc, SClass)):
         return z3.BoolVal(True)
     raise Unsupported('truthiness of %s' % type(sv).__name__)
@@ -1081,7 +1083,7 @@ class Exec:
             return SFunc('opaque', what=base.what, name=attr)
         if isinstance(base, (SSet, SDict, SGen)):
             return SFunc('bound', obj=base, name=attr)
-        if isinstance(base, SFunc) and base.kind == 'modeltable':
+        if isinstance(base, SFunc) and base.kind in ('modeltable', 'rematch'):
             return SFunc('bound', obj=base, name=attr)
         if isinstance(base, SFunc):
             raise Unsupported('attribute of a function value')
